@@ -2,6 +2,7 @@ package main
 
 import (
 	"sort"
+	"time"
 )
 
 func init() { register("C15", runC15) }
@@ -13,6 +14,7 @@ func init() { register("C15", runC15) }
 func runC15(r *Run) {
 	r.quiet = true
 	settleFast = true
+	scaleCapped = true
 	ids := make([]string, 0, len(props))
 	for id := range props {
 		if id != "C15" && id != "C08" && id != "C12" && id != "C19" {
@@ -26,12 +28,17 @@ func runC15(r *Run) {
 		}
 		r.Progress("workload", id)
 		before := r.evals
+		t0 := time.Now()
 		props[id](r)
 		r.mu.Lock()
 		r.dist["workload."+id] += r.evals - before
 		r.distinct["workload/"+id] = struct{}{}
 		r.mu.Unlock()
-		r.Sample(map[string]any{"workload": id, "executions": r.evals - before})
+		r.CountN("workload.seconds."+id, int(time.Since(t0).Seconds()+0.5))
+		r.Sample(map[string]any{"workload": id, "executions": r.evals - before, "seconds": time.Since(t0).Seconds()})
+	}
+	if r.Want("apiuse") {
+		c15APIUse(r)
 	}
 	r.quiet = false
 }
